@@ -44,6 +44,10 @@ structure Pred where
   who : Who
   tagged : Bool          -- abort carries the sender as culprit
   binds : List Leaf
+  /-- the predicate is a FAMILY: one predicate per MSP row owned by the sender, each evaluated on
+      component `i` of the vector-valued leaves it binds (`for i, k := range keys { check k xs[i] }`),
+      never on an aggregate of the components (`Model/CheckGraphVec.lean`) -/
+  perRow : Bool := false
   deriving DecidableEq, Repr, Inhabited
 
 structure Graph where
@@ -51,6 +55,9 @@ structure Graph where
   leaves : List Leaf          -- every leaf of every message (prefix patterns)
   preds : List Pred
   gate : String               -- the check every released output passes
+  /-- the vector-valued leaves: one component per MSP row owned by the sender (shares, sub-shares,
+      partial signatures under a non-ideal access structure) -/
+  vectors : List Leaf := []
   deriving Repr, Inhabited
 
 /-! ## classification of a tampered site -/
